@@ -621,12 +621,12 @@ impl PredecessorTree {
     @*/
 
     #[verifier::loop_isolation(false)]
-    /*@fn impl=PredecessorTree name=search_by props=C19
+    /*@fn impl=PredecessorTree name=search_by props=C19 safeindex
     requires
-        s < self.pred.len(),
         callable(is_target),
         deterministic(is_target),
     ensures
+        s < self.pred.len(),
         match r {
             Some(p) => found(self.pred@, is_target, s, p@),
             None => never(self.pred@, is_target, s),
